@@ -1,7 +1,6 @@
 """C12 driver: executes ONE history of loader operations in this (fresh) process and logs an event per operation.
 
 usage:  python -m harness.drivers.c12 run <script.json> <out.ndjson>
-        python -m harness.drivers.c12 runmany <list.json>              ([[script.json, out.ndjson], ...], one forked child each)
         python -m harness.drivers.c12 modtrace <module> <out.json>     (which theories does importing <module> load?)
         python -m harness.drivers.c12 graph <out.json>                 (imports and items of the library files; lazy-import table)
 
@@ -79,29 +78,6 @@ def run(script_path, out_path):
     install_smt_shim()
     from logic import basic          # noqa: the loader must be importable without side effect
     run_script(json.load(open(script_path)), out_path)
-
-
-def runmany(list_path):
-    """[[script.json, out.ndjson], ...]: every history in a forked child of a process that has only imported the loader
-    (the state a fresh process is in when `run` starts its first operation)."""
-    install_smt_shim()
-    from logic import basic          # noqa
-    from kernel import theory        # noqa
-    from server import items         # noqa
-    for sp, op in json.load(open(list_path)):
-        pid = os.fork()
-        if pid == 0:
-            rc = 0
-            try:
-                run_script(json.load(open(sp)), op)
-            except BaseException:      # noqa
-                import traceback
-                traceback.print_exc()
-                rc = 3
-            sys.stdout.flush()
-            sys.stderr.flush()
-            os._exit(rc)
-        os.waitpid(pid, 0)
 
 
 def run_script(script, out_path):
@@ -307,8 +283,9 @@ def graph(out_path):
 if __name__ == "__main__":
     if sys.argv[1] == "run":
         run(sys.argv[2], sys.argv[3])
-    elif sys.argv[1] == "runmany":
-        runmany(sys.argv[2])
+        sys.stdout.flush()
+        sys.stderr.flush()
+        os._exit(0)                   # the events are on disk: skip the interpreter's teardown of a few hundred thousand terms
     elif sys.argv[1] == "modtrace":
         modtrace(sys.argv[2], sys.argv[3])
     elif sys.argv[1] == "graph":
